@@ -7,6 +7,7 @@
 import IpldModel.Model.Link
 import IpldModel.Model.Cbor
 import IpldModel.Generated.LinkSkeletons
+import IpldModel.Lemmas.LinkMore
 namespace Ipld.Props.C06
 open Ipld Ipld.Link
 
@@ -119,6 +120,440 @@ example : fill toyH false toyL ⟨[0xf5, 0x00], none⟩ ⟨2, false⟩ = .ok := 
 example : fill toyH false toyL ⟨[0xf4, 0x00], none⟩ ⟨2, true⟩ = .hashMismatch := by decide
 example : fill toyH false toyL ⟨[0xf5, 0x00], some 1⟩ ⟨1, true⟩ = .ioErr := by decide
 example : store toyH ⟨1, 0x71, 0x12, -1⟩ ⟨[[0xf5], [0x00]], false, some 1⟩ = .failed := by decide
+
+/-! ## The verdicts of `Fill`, exactly -/
+
+/-- `Fill` on untrusted storage says `ok` exactly when the decoder succeeded and the bytes it consumed
+    hash to the link. -/
+theorem fill_ok_iff (l : Lnk) (s : Stream) (d : DecRun) :
+    fill H false l s d = .ok ↔ d.failed = false ∧ hashesTo H l (s.deliverable.take d.pulled) = true :=
+  Link.fill_ok_iff H l s d
+
+/-- A decode error is reported exactly when the whole block was read without I/O error and hashes to
+    the link: the decoder's verdict is only ever reported about verified bytes. -/
+theorem fill_decodeErr_iff (l : Lnk) (s : Stream) (d : DecRun) :
+    fill H false l s d = .decodeErr ↔ d.failed = true ∧ s.failAt = none ∧ hashesTo H l s.data = true :=
+  Link.fill_decodeErr_iff H l s d
+
+/-- An I/O error is reported exactly when the decoder failed and the stream has a read error (at or after
+    the point the decoder stopped: the drain runs into it). -/
+theorem fill_ioErr_iff (l : Lnk) (s : Stream) (d : DecRun) :
+    fill H false l s d = .ioErr ↔ d.failed = true ∧ ∃ f, s.failAt = some f :=
+  Link.fill_ioErr_iff H l s d
+
+/-- …and a hash mismatch in the two remaining cases. -/
+theorem fill_hashMismatch_iff (l : Lnk) (s : Stream) (d : DecRun) :
+    fill H false l s d = .hashMismatch ↔
+      (d.failed = true ∧ s.failAt = none ∧ hashesTo H l s.data = false) ∨
+      (d.failed = false ∧ hashesTo H l (s.deliverable.take d.pulled) = false) :=
+  Link.fill_hashMismatch_iff H l s d
+
+/-- "Unless storage is explicitly declared trusted": with the flag set nothing is hashed and the
+    decoder's verdict is returned as it is. -/
+theorem fill_trusted (l : Lnk) (s : Stream) (d : DecRun) :
+    fill H true l s d = if d.failed then .decodeErr else .ok := by
+  simp [fill]
+
+/-- the flag matters: the same corrupted block is accepted on trusted storage and refused otherwise -/
+example : fill toyH true toyL ⟨[0xf4, 0x00], none⟩ ⟨2, false⟩ = .ok ∧
+    fill toyH false toyL ⟨[0xf4, 0x00], none⟩ ⟨2, false⟩ = .hashMismatch := by decide
+
+/-! ## The master statement: no unverified data -/
+
+/-- Untrusted storage, any stream (any content, a read error anywhere), any decoder behaviour: when `Fill`
+    (hence `Load`) succeeds, the decoder succeeded, the hasher saw exactly the bytes the decoder consumed —
+    nothing the node was built from went unhashed, nothing else was hashed — and those bytes hash to the link. -/
+theorem no_unverified_data (l : Lnk) (s : Stream) (d : DecRun) (h : fill H false l s d = .ok) :
+    d.failed = false ∧ hasherSaw s d = s.deliverable.take d.pulled ∧
+      hashesTo H l (s.deliverable.take d.pulled) = true := by
+  obtain ⟨h1, h2⟩ := (fill_ok_iff H l s d).mp h
+  exact ⟨h1, by simp [hasherSaw, h1], h2⟩
+
+/-- `LoadRaw` hands out bytes exactly when there was no read error and the whole block hashes to the
+    link, and then it hands out the whole block. -/
+theorem loadRaw_some_iff (l : Lnk) (s : Stream) (r : Res) (b : Bytes) :
+    loadRaw H l s = (r, some b) ↔ r = .ok ∧ s.failAt = none ∧ b = s.data ∧ hashesTo H l s.data = true := by
+  rw [loadRaw_eq]
+  cases hfa : s.failAt with
+  | some f => simp
+  | none =>
+    dsimp only
+    by_cases hh : hashesTo H l s.data = true
+    · simp only [hh, if_true, Prod.mk.injEq, Option.some.injEq, true_and, and_true]
+      constructor
+      · rintro ⟨a, c⟩; exact ⟨a.symm, c.symm⟩
+      · rintro ⟨a, c⟩; exact ⟨a.symm, c.symm⟩
+    · simp [hh]
+
+/-- …and `ok` never comes without the bytes. -/
+theorem loadRaw_ok_some (l : Lnk) (s : Stream) (ob : Option Bytes) (h : loadRaw H l s = (.ok, ob)) :
+    ob = some s.data ∧ s.failAt = none ∧ hashesTo H l s.data = true := by
+  rw [loadRaw_eq] at h
+  cases hfa : s.failAt with
+  | some f => simp [hfa] at h
+  | none =>
+    simp only [hfa] at h
+    by_cases hh : hashesTo H l s.data = true
+    · simp only [hh, if_true, Prod.mk.injEq, true_and] at h
+      exact ⟨h.symm, rfl, hh⟩
+    · simp [hh] at h
+
+/-- `LoadPlusRaw` = `LoadRaw`, then the decoder on the verified buffer (`Link.loadPlusRaw`): any bytes it
+    returns are the whole block, read without error, and hash to the link; any node it returns was decoded
+    from exactly those bytes and comes with `ok`; and on a block that does not hash to the link the decoder
+    is not even run. -/
+theorem loadPlusRaw_verified (c : Codec) (l : Lnk) (s : Stream) (r : Res) (ov : Option DM) (ob : Option Bytes)
+    (h : loadPlusRaw H c l s = (r, ov, ob)) :
+    (∀ b, ob = some b → s.failAt = none ∧ b = s.data ∧ hashesTo H l b = true ∧
+        ((r = .ok ∧ ov = c.decode b ∧ ov.isSome = true) ∨ (r = .decodeErr ∧ ov = none ∧ c.decode b = none))) ∧
+    (∀ v, ov = some v → ob = some s.data) ∧
+    (r = .ok → ob = some s.data) := by
+  unfold loadPlusRaw at h
+  rw [loadRaw_eq] at h
+  cases hfa : s.failAt with
+  | some f =>
+    simp only [hfa, Prod.mk.injEq] at h
+    obtain ⟨rfl, rfl, rfl⟩ := h
+    simp
+  | none =>
+    simp only [hfa] at h
+    by_cases hh : hashesTo H l s.data = true
+    · simp only [hh, if_true] at h
+      cases hd : c.decode s.data with
+      | none =>
+        simp only [hd, Prod.mk.injEq] at h
+        obtain ⟨rfl, rfl, rfl⟩ := h
+        simp [hh, hd]
+      | some v =>
+        simp only [hd, Prod.mk.injEq] at h
+        obtain ⟨rfl, rfl, rfl⟩ := h
+        simp [hh, hd]
+    · simp only [hh, Bool.false_eq_true, if_false, Prod.mk.injEq] at h
+      obtain ⟨rfl, rfl, rfl⟩ := h
+      simp
+
+/-- For `LoadPlusRaw` the precedence is absolute: on a block that does not hash to the link it returns the
+    mismatch and neither node nor bytes, whatever the decoder would have said. -/
+theorem loadPlusRaw_mismatch (c : Codec) (l : Lnk) (s : Stream) (hio : s.failAt = none)
+    (hbad : hashesTo H l s.data = false) : loadPlusRaw H c l s = (.hashMismatch, none, none) := by
+  simp [loadPlusRaw, loadRaw_eq, hio, hbad]
+
+example : loadPlusRaw toyH rawCodec toyL ⟨[0xf5, 0x00], none⟩ = (.ok, some (.bytes [0xf5, 0x00]), some [0xf5, 0x00]) ∧
+    loadPlusRaw toyH rawCodec toyL ⟨[0xf4, 0x00], none⟩ = (.hashMismatch, none, none) ∧
+    loadPlusRaw toyH rawCodec toyL ⟨[0xf5, 0x00], some 1⟩ = (.ioErr, none, none) ∧
+    loadPlusRaw toyH ⟨fun _ => none, fun _ => none⟩ toyL ⟨[0xf5, 0x00], none⟩ = (.decodeErr, none, some [0xf5, 0x00]) := by
+  decide
+
+/-- The same at the level of histories on one storage, for ANY storage content (nothing is assumed of
+    `s`: it may hold arbitrarily corrupted, truncated, extended or misfiled blocks): a `LoadRaw` step that
+    returns bytes returns the block filed under the link, and it hashes to the link; a `Load` step that
+    returns a node decoded it from such a block. -/
+theorem hstep_load_verified (codecs : Nat → Option Codec) (s : Store) (l : Lnk) :
+    (∀ b, (hstep H codecs s (.loadRaw l)).2 = .raw b → s.get l = some b ∧ hashesTo H l b = true) ∧
+    (∀ v, (hstep H codecs s (.load l)).2 = .node v →
+      ∃ c b, codecs l.codec = some c ∧ s.get l = some b ∧ hashesTo H l b = true ∧ c.decode b = some v) := by
+  constructor
+  · intro b h
+    simp only [hstep] at h
+    cases hg : s.get l with
+    | none => simp [hg] at h
+    | some b' =>
+      simp only [hg] at h
+      by_cases hh : hashesTo H l b' = true
+      · simp only [hh, if_true, HOut.raw.injEq] at h
+        subst h
+        exact ⟨rfl, hh⟩
+      · simp [hh] at h
+  · intro v h
+    simp only [hstep] at h
+    cases hc : codecs l.codec with
+    | none => simp [hc] at h
+    | some c =>
+      cases hg : s.get l with
+      | none => simp [hc, hg] at h
+      | some b' =>
+        simp only [hc, hg] at h
+        by_cases hh : hashesTo H l b' = true
+        · simp only [hh, if_true] at h
+          cases hd : c.decode b' with
+          | none => simp [hd] at h
+          | some v' =>
+            simp only [hd, HOut.node.injEq] at h
+            subst h
+            exact ⟨c, b', rfl, rfl, hh, hd⟩
+        · simp [hh] at h
+
+/-- …hence in every history from every initial storage, every `LoadRaw` that returned bytes returned
+    bytes that hash to the link it was asked for. -/
+theorem history_loadRaw_verified (codecs : Nat → Option Codec) (s : Store) (ops : List HOp) (i : Nat) (l : Lnk)
+    (b : Bytes) (hop : ops[i]? = some (.loadRaw l)) (hout : (hrun H codecs s ops).2[i]? = some (.raw b)) :
+    hashesTo H l b = true := by
+  induction ops generalizing s i with
+  | nil => simp at hop
+  | cons op ops ih =>
+    rw [hrun_cons_snd] at hout
+    cases i with
+    | zero =>
+      simp only [List.getElem?_cons_zero, Option.some.injEq] at hop hout
+      subst hop
+      exact ((hstep_load_verified H codecs s l).1 b hout).2
+    | succ i =>
+      simp only [List.getElem?_cons_succ] at hop hout
+      exact ih _ i hop hout
+
+/-- a storage whose one block is filed under a link it does not hash to: both loads refuse it -/
+example : (hstep toyH toyCodecs [(toyL, [0xf4, 0x00])] (.loadRaw toyL)).2 = .error ∧
+    (hstep toyH (fun _ => some rawCodec) [(toyL, [0xf4, 0x00])] (.load toyL)).2 = .error ∧
+    (hstep toyH (fun _ => some rawCodec) [(toyL, [0xf5, 0x00])] (.load toyL)).2 = .node (.bytes [0xf5, 0x00]) := by decide
+
+/-! ## Corruption is detected -/
+
+/-- Any delivered block that does not hash to the link (no read error), any decoder behaviour that
+    consumes the whole block when it succeeds: `Fill` says `hashMismatch` — not `ok`, not the decode error —
+    and so does `LoadRaw`, which returns no bytes. -/
+theorem corruption_detected (l : Lnk) (s : Stream) (d : DecRun) (hio : s.failAt = none)
+    (hbad : hashesTo H l s.data = false) (consumesAll : d.failed = false → s.data.length ≤ d.pulled) :
+    fill H false l s d = .hashMismatch ∧ loadRaw H l s = (.hashMismatch, none) := by
+  refine ⟨(fill_hashMismatch_iff H l s d).mpr ?_, by simp [loadRaw_eq, hio, hbad]⟩
+  cases hf : d.failed with
+  | true => exact Or.inl ⟨rfl, hio, hbad⟩
+  | false =>
+    refine Or.inr ⟨rfl, ?_⟩
+    simp only [Stream.deliverable, hio]
+    rw [List.take_of_length_le (consumesAll hf)]
+    exact hbad
+
+/-- Without the assumption on the decoder, what remains true of a block that does not hash to the link:
+    the verdict is never the decode error and never an I/O error; it is the mismatch, or else `ok` from a
+    decoder that stopped strictly before the end of the block, on a proper prefix that itself hashes to the
+    link (the node then comes from those verified bytes; the unread tail is never hashed). -/
+theorem corruption_verdicts (l : Lnk) (s : Stream) (d : DecRun) (hio : s.failAt = none)
+    (hbad : hashesTo H l s.data = false) :
+    fill H false l s d = .hashMismatch ∨
+    (fill H false l s d = .ok ∧ d.failed = false ∧ d.pulled < s.data.length ∧
+      hashesTo H l (s.data.take d.pulled) = true) := by
+  cases hf : d.failed with
+  | true => exact Or.inl ((fill_hashMismatch_iff H l s d).mpr (Or.inl ⟨hf, hio, hbad⟩))
+  | false =>
+    cases hh : hashesTo H l (s.deliverable.take d.pulled) with
+    | false => exact Or.inl ((fill_hashMismatch_iff H l s d).mpr (Or.inr ⟨hf, hh⟩))
+    | true =>
+      right
+      have hh' : hashesTo H l (s.data.take d.pulled) = true := by
+        simpa only [Stream.deliverable, hio] using hh
+      refine ⟨(fill_ok_iff H l s d).mpr ⟨hf, hh⟩, rfl, ?_, hh'⟩
+      apply Classical.byContradiction
+      intro hlt
+      rw [List.take_of_length_le (by omega)] at hh'
+      rw [hh'] at hbad
+      cases hbad
+
+/-- The assumption on the decoder is needed, and only for extensions: a decoder that stops at the end
+    of the genuine block (dag-cbor with `DontParseBeyondEnd`, say) never pulls the appended bytes through
+    the tee, they are not hashed, and `Fill` accepts.  `LoadRaw` on the same stream refuses. -/
+example : hashesTo toyH toyL [0xf5, 0x00] = true ∧ hashesTo toyH toyL [0xf5, 0x00, 0xaa] = false ∧
+    fill toyH false toyL ⟨[0xf5, 0x00, 0xaa], none⟩ ⟨2, false⟩ = .ok ∧
+    loadRaw toyH toyL ⟨[0xf5, 0x00, 0xaa], none⟩ = (.hashMismatch, none) := by decide
+
+/-- The three corruption families of the property, for a stored block `b`, with no other hypothesis than
+    "the corrupted bytes do not hash to the link" (i.e. no collision) — a changed byte at any offset… -/
+theorem bitflip_detected (l : Lnk) (b : Bytes) (i : Nat) (x : UInt8) (d : DecRun)
+    (hbad : hashesTo H l (b.set i x) = false) (consumesAll : d.failed = false → b.length ≤ d.pulled) :
+    fill H false l ⟨b.set i x, none⟩ d = .hashMismatch ∧ loadRaw H l ⟨b.set i x, none⟩ = (.hashMismatch, none) :=
+  corruption_detected H l ⟨b.set i x, none⟩ d rfl hbad (by simpa using consumesAll)
+
+/-- …any truncation… -/
+theorem truncation_detected (l : Lnk) (b : Bytes) (n : Nat) (d : DecRun)
+    (hbad : hashesTo H l (b.take n) = false) (consumesAll : d.failed = false → (b.take n).length ≤ d.pulled) :
+    fill H false l ⟨b.take n, none⟩ d = .hashMismatch ∧ loadRaw H l ⟨b.take n, none⟩ = (.hashMismatch, none) :=
+  corruption_detected H l ⟨b.take n, none⟩ d rfl hbad consumesAll
+
+/-- …any extension. -/
+theorem extension_detected (l : Lnk) (b x : Bytes) (d : DecRun)
+    (hbad : hashesTo H l (b ++ x) = false) (consumesAll : d.failed = false → (b ++ x).length ≤ d.pulled) :
+    fill H false l ⟨b ++ x, none⟩ d = .hashMismatch ∧ loadRaw H l ⟨b ++ x, none⟩ = (.hashMismatch, none) :=
+  corruption_detected H l ⟨b ++ x, none⟩ d rfl hbad consumesAll
+
+/-- Flipping any set of bits of a byte (xor with a non-zero mask) changes it; in particular flipping bit
+    `k`.  So "a bit flip at any offset" is an instance of `bitflip_detected`, with `x = b[i] ^^^ mask`. -/
+theorem bitflip_changes (a m : UInt8) (hm : m ≠ 0) : a ^^^ m ≠ a := by
+  intro h
+  apply hm
+  have : a ^^^ (a ^^^ m) = a ^^^ a := by rw [h]
+  rw [← UInt8.xor_assoc, UInt8.xor_self, UInt8.zero_xor] at this
+  exact this
+
+theorem bitflip_changes_bit (a : UInt8) (k : Nat) (hk : k < 8) : a ^^^ (1 <<< UInt8.ofNat k) ≠ a := by
+  have : ∀ k : Fin 8, (1 : UInt8) <<< UInt8.ofNat k.val ≠ 0 := by decide
+  exact bitflip_changes a _ (this ⟨k, hk⟩)
+
+/-- the three on concrete data (stored block `[0xf5, 0x00]` under `toyL`): bit 0 of byte 0 flipped, cut to one
+    byte, one byte appended; the decoder fails, or succeeds having read everything -/
+example : hashesTo toyH toyL [0xf5, 0x00] = true ∧
+    ([0xf5, 0x00] : Bytes).set 0 ((0xf5 : UInt8) ^^^ (1 <<< UInt8.ofNat 0)) = [0xf4, 0x00] ∧
+    fill toyH false toyL ⟨[0xf4, 0x00], none⟩ ⟨2, false⟩ = .hashMismatch ∧
+    fill toyH false toyL ⟨[0xf4, 0x00], none⟩ ⟨1, true⟩ = .hashMismatch ∧
+    fill toyH false toyL ⟨([0xf5, 0x00] : Bytes).take 1, none⟩ ⟨1, false⟩ = .hashMismatch ∧
+    fill toyH false toyL ⟨[0xf5, 0x00] ++ [0xaa], none⟩ ⟨3, false⟩ = .hashMismatch ∧
+    loadRaw toyH toyL ⟨[0xf5, 0x00] ++ [0xaa], none⟩ = (.hashMismatch, none) := by decide
+
+/-- Under the collision assumption for the link (`NoCollision`: the stored block `b` is the only one that
+    hashes to `l`), with NO assumption on the decoder: a delivered block other than `b` is accepted only if
+    it is a proper extension of `b` and the decoder stopped exactly at the end of `b` — so the node was
+    decoded from the genuine block.  In every other case the verdict is the mismatch. -/
+theorem corruption_ok_only_extension (l : Lnk) (b b' : Bytes) (d : DecRun) (hb : NoCollision H l b) (hne : b' ≠ b) :
+    fill H false l ⟨b', none⟩ d = .hashMismatch ∨
+    (fill H false l ⟨b', none⟩ d = .ok ∧ d.failed = false ∧ b'.take d.pulled = b ∧ b.length < b'.length) := by
+  have hbad : hashesTo H l b' = false := by
+    cases hh : hashesTo H l b' with
+    | false => rfl
+    | true => exact (hne (hb b' hh)).elim
+  rcases corruption_verdicts H l ⟨b', none⟩ d rfl hbad with h | ⟨h1, h2, h3, h4⟩
+  · exact Or.inl h
+  · right
+    have e := hb _ h4
+    refine ⟨h1, h2, e, ?_⟩
+    have := congrArg List.length e
+    rw [List.length_take] at this
+    have h3' : d.pulled < b'.length := h3
+    omega
+
+/-- Hence a changed byte and a truncation are refused whatever the decoder does… -/
+theorem bitflip_detected_any_decoder (l : Lnk) (b : Bytes) (i : Nat) (x : UInt8) (d : DecRun)
+    (hb : NoCollision H l b) (hi : i < b.length) (hx : x ≠ b[i]) :
+    fill H false l ⟨b.set i x, none⟩ d = .hashMismatch ∧ loadRaw H l ⟨b.set i x, none⟩ = (.hashMismatch, none) := by
+  have hne := set_ne_self b i x hi hx
+  have hbad : hashesTo H l (b.set i x) = false := by
+    cases hh : hashesTo H l (b.set i x) with
+    | false => rfl
+    | true => exact (hne (hb _ hh)).elim
+  refine ⟨?_, by simp [loadRaw_eq, hbad]⟩
+  rcases corruption_ok_only_extension H l b (b.set i x) d hb hne with h | ⟨_, _, _, h⟩
+  · exact h
+  · simp at h
+
+theorem truncation_detected_any_decoder (l : Lnk) (b : Bytes) (n : Nat) (d : DecRun)
+    (hb : NoCollision H l b) (hn : n < b.length) :
+    fill H false l ⟨b.take n, none⟩ d = .hashMismatch ∧ loadRaw H l ⟨b.take n, none⟩ = (.hashMismatch, none) := by
+  have hne := take_ne_self b n hn
+  have hbad : hashesTo H l (b.take n) = false := by
+    cases hh : hashesTo H l (b.take n) with
+    | false => rfl
+    | true => exact (hne (hb _ hh)).elim
+  refine ⟨?_, by simp [loadRaw_eq, hbad]⟩
+  rcases corruption_ok_only_extension H l b (b.take n) d hb hne with h | ⟨_, _, _, h⟩
+  · exact h
+  · rw [List.length_take] at h; omega
+
+/-- …and an extension by a decoder that consumes all it is given when it succeeds; `LoadRaw` refuses it
+    unconditionally. -/
+theorem extension_detected_nocoll (l : Lnk) (b x : Bytes) (d : DecRun)
+    (hb : NoCollision H l b) (hx : x ≠ []) (consumesAll : d.failed = false → (b ++ x).length ≤ d.pulled) :
+    fill H false l ⟨b ++ x, none⟩ d = .hashMismatch ∧ loadRaw H l ⟨b ++ x, none⟩ = (.hashMismatch, none) := by
+  have hne := append_ne_self b x hx
+  have hbad : hashesTo H l (b ++ x) = false := by
+    cases hh : hashesTo H l (b ++ x) with
+    | false => rfl
+    | true => exact (hne (hb _ hh)).elim
+  exact corruption_detected H l ⟨b ++ x, none⟩ d rfl hbad consumesAll
+
+/-- `NoCollision` is satisfiable: the identity multihash (`H 0 b = b`) has no collisions; and the
+    any-decoder theorems say what they should there. -/
+example : NoCollision (fun _ b => b) ⟨1, 0x55, identityCode, [1, 2, 3]⟩ [1, 2, 3] := by
+  intro b' h
+  unfold hashesTo at h
+  simp only [beq_iff_eq] at h
+  have h2 := (buildLink_some h).2.1
+  rw [truncate_identity _ _ rfl] at h2
+  exact Option.some.inj h2
+example : fill (fun _ b => b) false ⟨1, 0x55, identityCode, [1, 2, 3]⟩ ⟨([1, 2, 3] : Bytes).set 1 9, none⟩ ⟨1, false⟩ = .hashMismatch ∧
+    fill (fun _ b => b) false ⟨1, 0x55, identityCode, [1, 2, 3]⟩ ⟨([1, 2, 3] : Bytes).take 2, none⟩ ⟨0, false⟩ = .hashMismatch ∧
+    fill (fun _ b => b) false ⟨1, 0x55, identityCode, [1, 2, 3]⟩ ⟨[1, 2, 3] ++ [4], none⟩ ⟨3, false⟩ = .ok := by decide
+
+/-! ## Read errors -/
+
+/-- A stream with a read error (after `f` bytes), all cases.  `LoadRaw` returns the I/O error and no
+    bytes.  `Fill` returns the I/O error if the decoder failed (it ran into the error, or failed earlier and
+    the drain ran into it) — never a decode error, never a mismatch computed from a partial block.  If the
+    decoder SUCCEEDED — it had all it needed within the bytes delivered before the error, which it therefore
+    never saw — the verdict is the hash check on exactly the bytes it consumed, a prefix of the first `f`
+    bytes: `ok` if they hash to the link, `hashMismatch` otherwise. -/
+theorem read_error_verdicts (l : Lnk) (s : Stream) (d : DecRun) (f : Nat) (hio : s.failAt = some f) :
+    loadRaw H l s = (.ioErr, none) ∧
+    (d.failed = true → fill H false l s d = .ioErr) ∧
+    (d.failed = false → fill H false l s d =
+      if hashesTo H l (s.data.take (min d.pulled f)) then .ok else .hashMismatch) ∧
+    fill H false l s d ≠ .decodeErr := by
+  refine ⟨by simp [loadRaw_eq, hio], fun hd => by simp [fill, hio, hd], fun hd => ?_, ?_⟩
+  · simp [fill, hd, Stream.deliverable, hio, List.take_take]
+  · intro h
+    have := ((fill_decodeErr_iff H l s d).mp h).2.1
+    rw [hio] at this; cases this
+
+/-- So after a read error `ok` is possible, but only ever about verified bytes: the decoder succeeded and
+    what it consumed hashes to the link. -/
+theorem read_error_ok_verified (l : Lnk) (s : Stream) (d : DecRun) (f : Nat) (hio : s.failAt = some f)
+    (h : fill H false l s d = .ok) :
+    d.failed = false ∧ hashesTo H l (s.data.take (min d.pulled f)) = true := by
+  obtain ⟨h1, h2⟩ := (fill_ok_iff H l s d).mp h
+  refine ⟨h1, ?_⟩
+  simpa [Stream.deliverable, hio, List.take_take] using h2
+
+/-- With a decoder that reads to the end of the stream whenever it succeeds (every bundled codec in its
+    default mode) a read error can only come out as the I/O error. -/
+theorem read_error_never_ok (l : Lnk) (s : Stream) (d : DecRun) (f : Nat) (hio : s.failAt = some f)
+    (readsToEnd : d.failed = false → s.failAt = none) : fill H false l s d = .ioErr := by
+  cases hd : d.failed with
+  | true => exact io_surfaces H l s d f hio hd
+  | false => have := readsToEnd hd; rw [hio] at this; cases this
+
+/-- `ok` after a (latent) read error does happen: the block is `[0xf5, 0x00, …]`, the stream fails after two
+    bytes, the decoder needed two.  With a decoder that wants the third byte: the I/O error. -/
+example : fill toyH false toyL ⟨[0xf5, 0x00, 0xaa], some 2⟩ ⟨2, false⟩ = .ok ∧
+    fill toyH false toyL ⟨[0xf5, 0x00, 0xaa], some 2⟩ ⟨2, true⟩ = .ioErr ∧
+    fill toyH false toyL ⟨[0xf5, 0x00, 0xaa], some 1⟩ ⟨1, false⟩ = .hashMismatch ∧
+    loadRaw toyH toyL ⟨[0xf5, 0x00, 0xaa], some 2⟩ = (.ioErr, none) := by decide
+
+/-! ## Store commits all or nothing -/
+
+/-- `Store` calls the committer exactly when the encoder returned no error, no storage write that was
+    performed failed, and `BuildLink` did not panic; the block committed is then the concatenation of ALL
+    the encoder's writes and the link is built from the hash of exactly that. -/
+theorem store_commit_iff (p : Proto) (e : EncRun) (l : Lnk) (b : Bytes) :
+    store H p e = .committed l b ↔
+      e.encFails = false ∧ (∀ j, e.writerFailsAt = some j → e.writes.length ≤ j) ∧
+      buildLink p (H p.mhType e.writes.flatten) = some l ∧ b = e.writes.flatten :=
+  store_committed_iff H p e l b
+
+/-- …and it returns an error without committing exactly when the encoder failed or a performed write
+    failed (the converse of `store_fail_no_commit`). -/
+theorem store_failed_iff (p : Proto) (e : EncRun) :
+    store H p e = .failed ↔ e.encFails = true ∨ ∃ j, e.writerFailsAt = some j ∧ j < e.writes.length :=
+  Link.store_failed_iff H p e
+
+/-- Never a prefix: a committed block is never a proper prefix of what the encoder wrote — in particular
+    not the writes up to a failure. -/
+theorem store_never_commits_prefix (p : Proto) (e : EncRun) (l : Lnk) (n : Nat)
+    (hne : (e.writes.drop n).flatten ≠ []) :
+    store H p e ≠ .committed l (e.writes.take n).flatten := by
+  intro h
+  have := ((store_commit_iff H p e l _).mp h).2.2.2
+  have e2 : e.writes.flatten = (e.writes.take n).flatten ++ (e.writes.drop n).flatten := by
+    rw [← List.flatten_append, List.take_append_drop]
+  rw [e2] at this
+  exact append_ne_self _ _ hne this.symm
+
+example : store toyH ⟨1, 0x71, 0x12, -1⟩ ⟨[[0xf5], [0x00]], false, none⟩ = .committed toyL [0xf5, 0x00] ∧
+    store toyH ⟨1, 0x71, 0x12, -1⟩ ⟨[[0xf5], [0x00]], false, some 2⟩ = .committed toyL [0xf5, 0x00] ∧
+    store toyH ⟨1, 0x71, 0x12, -1⟩ ⟨[[0xf5], [0x00]], true, none⟩ = .failed ∧
+    store toyH ⟨1, 0x71, 0x12, -1⟩ ⟨[[0xf5], [0x00]], false, some 1⟩ = .failed ∧
+    store toyH ⟨1, 0x71, 0x12, 5⟩ ⟨[[0xf5], [0x00]], false, none⟩ = .panicked := by decide
+
+/-- `store_never_commits_prefix` on concrete data: the writer fails on the second write; the first write
+    alone (which would be a perfectly well-formed block with its own link) is not committed. -/
+example : buildLink ⟨1, 0x71, 0x12, -1⟩ (toyH 0x12 [0xf5]) = some ⟨1, 0x71, 0x12, [1, 0xf5]⟩ ∧
+    store toyH ⟨1, 0x71, 0x12, -1⟩ ⟨[[0xf5], [0x00]], false, some 1⟩ ≠ .committed ⟨1, 0x71, 0x12, [1, 0xf5]⟩ [0xf5] := by
+  decide
 
 
 /-! ## (T) the transcribed functions as they are in the source on this run -/
